@@ -643,33 +643,28 @@ theorem parseRow_of_date (T : Tables) (pf : Str → Option F64) (cfg : Cfg) (row
     fun _ => hfin, by rw [applySign_isZero]; exact hz, rfl⟩
   simp [oracles, dateOracle, hdate]
 
-/-- the format has no white space at all (so nothing the date is written with contains white space) -/
-def FmtNoSpaces (fmt : Str) : Bool :=
-  match compile fmt with
-  | .ok items => noSpacesItems items
-  | .error _ => false
-
 /-- the format neither begins nor ends with white space -/
 def FmtEdgesOk (fmt : Str) : Bool :=
   match compile fmt with
   | .ok items => !startsWithSpaces items && lastNotSpaces items && !items.isEmpty
   | .error _ => false
 
-/-- `the date cell` (format without white space, e.g. `%m/%d/%Y`): blanks around the date are stripped by the caller, and
+/-- `the date cell` (format string without white space, e.g. `%m/%d/%Y`): blanks around the date are stripped by the caller, and
 whatever follows the date after white space - the weekday of `01/02/2017  Mon`, a time - is cut off: the token handed to
 `strptime` is exactly the date as written, so (by `strptime_strftimeWith` and `parseRow_of_date`) the row's transaction
 carries exactly that date. -/
 theorem date_cell_token_cut (T : Tables) (hT : TablesOk T) (spec : Spec) (sps : List Spell) (t : DateTime) (pre post : Str)
-    (hf : FmtOk spec.dateFormat = true) (hns : FmtNoSpaces spec.dateFormat = true)
-    (hblank : spec.dateFormat.contains ' ' = false) (hv : t.valid = true)
+    (hf : FmtOk spec.dateFormat = true) (hfmt : spec.dateFormat.all (fun c => !isPySpace c) = true) (hv : t.valid = true)
     (hs : SpellsOk T sps spec.dateFormat t = true) (hpre : pre.all isPySpace = true)
     (hpost : post = [] ∨ ∃ c r, post = c :: r ∧ isPySpace c = true) :
     dateToken spec (strip (pre ++ strftimeWith sps spec.dateFormat t ++ post)) = some (strftimeWith sps spec.dateFormat t) := by
-  unfold FmtOk at hf; unfold FmtNoSpaces at hns; unfold SpellsOk at hs
+  have hblank := no_blank_of_noSpaces spec.dateFormat hfmt
+  unfold FmtOk at hf; unfold SpellsOk at hs
   cases hc : compile spec.dateFormat with
   | error e => simp [hc] at hf
   | ok items =>
-    simp only [hc] at hf hns hs
+    simp only [hc] at hf hs
+    have hns := scan_noSpaces spec.dateFormat hfmt items (compile_ok_scan hc).1
     have ht := fieldsOk_of_valid t hv
     have hw := scan_wellShaped spec.dateFormat items (compile_ok_scan hc).1
     have hren : (groupNames items).all renderable = true := by
@@ -709,6 +704,84 @@ theorem date_cell_token_whole (T : Tables) (hT : TablesOk T) (spec : Spec) (sps 
       intro c' hc''
       rw [h] at hc''; cases hc''
       exact hc' (by simpa [startsWithSpaces] using he.1.1)
+
+/-- `carries the row's date`, end to end and with no date oracle (format without white space): a row with enough columns, a
+non-empty description, an amount that is a finite non-zero number, and a date cell consisting of blanks, the date `t` written
+under the row's own `FmtOk` date format in any accepted spelling, and then nothing or white space followed by anything (a
+weekday …) becomes exactly one transaction, and that transaction's date is `t` (with the time fields the format mentions). -/
+theorem row_carries_written_date (T : Tables) (hT : TablesOk T) (pf : Str → Option F64) (cfg : Cfg) (row : List Str)
+    (sps : List Spell) (t : DateTime) (pre post desc : Str) (caps : List (Str × Str)) (q : F64)
+    (hf : FmtOk cfg.spec.dateFormat = true) (hfmt : cfg.spec.dateFormat.all (fun c => !isPySpace c) = true)
+    (hv : t.valid = true) (hy : YearFits cfg.spec.dateFormat t = true)
+    (hs : SpellsOk T sps cfg.spec.dateFormat t = true) (hlen : maxCol cfg.spec < row.length)
+    (hcell : row.getD cfg.spec.dateCol [] = pre ++ strftimeWith sps cfg.spec.dateFormat t ++ post)
+    (hpre : pre.all isPySpace = true) (hpost : post = [] ∨ ∃ c r, post = c :: r ∧ isPySpace c = true)
+    (hd : describe cfg.spec row = .ok (desc, caps)) (hdne : desc.isEmpty = false)
+    (hane : (cell row cfg.spec.amountCol).isEmpty = false) (hq : rawAmount (oracles T pf) cfg row = some q)
+    (hfin : q.isFinite = true) (hz : q.isZero = false) :
+    parseRow (oracles T pf) cfg row =
+      .ok (mkTxn cfg row desc caps (isoformat (readBack cfg.spec.dateFormat t)) q) := by
+  have htok : dateToken cfg.spec (cell row cfg.spec.dateCol) = some (strftimeWith sps cfg.spec.dateFormat t) := by
+    unfold cell; rw [hcell]
+    exact date_cell_token_cut T hT cfg.spec sps t pre post hf hfmt hv hs hpre hpost
+  have hne : (cell row cfg.spec.dateCol).isEmpty = false := by
+    cases hc : cell row cfg.spec.dateCol with
+    | nil =>
+      rw [hc] at htok
+      unfold dateToken at htok
+      rw [if_neg (by rw [no_blank_of_noSpaces _ hfmt]; exact Bool.false_ne_true)] at htok
+      simp [firstToken, lstrip] at htok
+    | cons c r => rfl
+  exact parseRow_of_date T pf cfg row _ (readBack cfg.spec.dateFormat t) desc caps q
+    ⟨hlen, ⟨desc, caps, hd, hdne⟩, hne, hane, htok⟩ hd (strptime_strftimeWith T hT _ sps t hf hv hy hs) hq hfin hz
+
+/-- the same for a date format with a blank (`%d %b %y`): the cell is blanks, the written date, blanks -/
+theorem row_carries_written_date_blank (T : Tables) (hT : TablesOk T) (pf : Str → Option F64) (cfg : Cfg) (row : List Str)
+    (sps : List Spell) (t : DateTime) (pre post desc : Str) (caps : List (Str × Str)) (q : F64)
+    (hf : FmtOk cfg.spec.dateFormat = true) (he : FmtEdgesOk cfg.spec.dateFormat = true)
+    (hblank : cfg.spec.dateFormat.contains ' ' = true) (hv : t.valid = true) (hy : YearFits cfg.spec.dateFormat t = true)
+    (hs : SpellsOk T sps cfg.spec.dateFormat t = true) (hlen : maxCol cfg.spec < row.length)
+    (hcell : row.getD cfg.spec.dateCol [] = pre ++ strftimeWith sps cfg.spec.dateFormat t ++ post)
+    (hpre : pre.all isPySpace = true) (hpost : post.all isPySpace = true)
+    (hd : describe cfg.spec row = .ok (desc, caps)) (hdne : desc.isEmpty = false)
+    (hane : (cell row cfg.spec.amountCol).isEmpty = false) (hq : rawAmount (oracles T pf) cfg row = some q)
+    (hfin : q.isFinite = true) (hz : q.isZero = false) :
+    parseRow (oracles T pf) cfg row =
+      .ok (mkTxn cfg row desc caps (isoformat (readBack cfg.spec.dateFormat t)) q) := by
+  have htok : dateToken cfg.spec (cell row cfg.spec.dateCol) = some (strftimeWith sps cfg.spec.dateFormat t) := by
+    unfold cell; rw [hcell]
+    exact date_cell_token_whole T hT cfg.spec sps t pre post hf he hblank hv hs hpre hpost
+  have hdate := strptime_strftimeWith T hT _ sps t hf hv hy hs
+  have hne : (cell row cfg.spec.dateCol).isEmpty = false := by
+    cases hc : cell row cfg.spec.dateCol with
+    | nil =>
+      rw [hc] at htok
+      unfold dateToken at htok
+      rw [if_pos hblank] at htok
+      simp only [Option.some.injEq] at htok
+      -- the written text would be empty, but an `FmtOk` format does not match the empty text
+      rw [← htok] at hdate
+      have hnil := strptime_ok_parts hdate
+      obtain ⟨items, caps', a, hc', hm, -, -⟩ := hnil
+      have hfo := hf
+      unfold FmtOk at hfo; rw [hc'] at hfo
+      exfalso
+      cases items with
+      | nil => simp [namesOk, groupNames] at hfo
+      | cons it is =>
+        have ht := fieldsOk_of_valid t hv
+        have hw := scan_wellShaped _ _ (compile_ok_scan hc').1
+        have hren : (groupNames (it :: is)).all renderable = true := by
+          simp only [namesOk, Bool.and_eq_true] at hfo; exact hfo.1.1.1
+        have hs' := hs
+        unfold SpellsOk at hs'; rw [hc'] at hs'
+        obtain ⟨c, r, h, -, -⟩ := render_head hT t ht it is sps hw hren hs'
+        have : strftimeWith sps cfg.spec.dateFormat t = c :: r := by simp only [strftimeWith, hc']; exact h
+        rw [this] at htok; cases htok
+    | cons c r => rfl
+  exact parseRow_of_date T pf cfg row _ (readBack cfg.spec.dateFormat t) desc caps q
+    ⟨hlen, ⟨desc, caps, hd, hdne⟩, hne, hane, htok⟩ hd hdate hq hfin hz
+
 
 /-! ### non-vacuity and observations for the date theorems (kernel-evaluated on the model) -/
 
@@ -806,6 +879,21 @@ example :
     (match parseFile o { cfg with spec := { d5Spec with dateFormat := "%d/%d/%Y".toList } } rows with
       | .ok _ => none
       | .error e => some e) = some .reError := by
+  decide +kernel
+
+/-- the hypotheses of `row_carries_written_date` hold for the row `  1/5/2025  Wed , TEA , 12.5` under `%m/%d/%Y` -/
+example :
+    let cfg : Cfg := { spec := d5Spec, eu := false, sourceName := ['B'] }
+    let row : List Str := ["  1/5/2025  Wed ".toList, "TEA".toList, "12.5".toList]
+    let t : DateTime := { year := 2025, month := 1, day := 5 }
+    (okOf (parseRow (oracles asciiTables datePf) cfg row)).map (fun x => String.ofList x.date) = some "2025-01-05T00:00:00" := by
+  intro cfg row _t
+  have h := row_carries_written_date asciiTables asciiTables_ok datePf cfg row
+    [{ unpad := true }, {}, { unpad := true }] _t "  ".toList "  Wed ".toList "TEA".toList [] ⟨false, 0x4029000000000000⟩
+    (by decide +kernel) (by decide +kernel) (by decide +kernel) (by decide +kernel) (by decide +kernel)
+    (by decide +kernel) (by decide +kernel) (by decide +kernel) (Or.inr ⟨' ', " Wed ".toList, by decide +kernel, by decide +kernel⟩)
+    (by rfl) (by decide +kernel) (by decide +kernel) (by decide +kernel) (by decide +kernel) (by decide +kernel)
+  rw [h]
   decide +kernel
 
 end Date
